@@ -179,4 +179,252 @@ theorem subst_buildEnvIL_swap (pre post : List Item) (ty1 n1 : String) (rhs1 : T
     t.subst (buildEnvIL (pre ++ Item.decl ty2 n2 rhs2 :: Item.decl ty1 n1 rhs1 :: post) env) :=
   Term.subst_congr (buildEnvIL_swap pre post ty1 n1 rhs1 ty2 n2 rhs2 h1 h2 hi env) t
 
+/-! ### Hoisting the pure declarations in front (stable partition) -/
+
+/-- Declaration types of the "EXEC" class: pure and bool values. -/
+def isPureTy (ty : String) : Bool := ty == "RzILOpPure *" || ty == "RzILOpBool *"
+
+theorem isILTy_of_isPureTy {ty : String} (h : isPureTy ty = true) : isILTy ty = true := by
+  simp only [isPureTy, Bool.or_eq_true] at h
+  simp only [isILTy, Bool.or_eq_true]
+  rcases h with h | h
+  · exact Or.inl (Or.inl h)
+  · exact Or.inr h
+
+/-- An inlined PURE/BOOL declaration. -/
+def Item.isPureDecl : Item → Bool
+  | .decl ty _ _ => isPureTy ty
+  | _ => false
+
+/-- EXEC_CLASSES order of a READ_STATEMENTS list: all inlined pure/bool declarations in their order, then every
+    other item (effect declarations, operand declarations, comments, the return) in their order. -/
+def hoistPures (items : List Item) : List Item :=
+  items.filter Item.isPureDecl ++ items.filter (fun i => !i.isPureDecl)
+
+/-- `x` (any item) may be moved to the right over the pure declaration `p`: either `x` is not inlined at all, or the
+    two are independent inlined declarations. -/
+def Item.indepOf (x p : Item) : Bool :=
+  match x, p with
+  | .decl tyx m rhsx, .decl _ n rhs => if isILTy tyx then indep n rhs m rhsx else true
+  | _, _ => true
+
+/-- The minimal condition under which hoisting is sound: every non-pure item is independent of every pure
+    declaration that FOLLOWS it (those are the ones that jump over it). -/
+def LayoutIndep : List Item → Bool
+  | [] => true
+  | x :: rest =>
+    (x.isPureDecl || (rest.filter Item.isPureDecl).all (fun p => x.indepOf p)) && LayoutIndep rest
+
+theorem buildEnvIL_cons_congr (x : Item) {l1 l2 : List Item}
+    (h : ∀ env, EnvEq (buildEnvIL l1 env) (buildEnvIL l2 env)) (env : Env) :
+    EnvEq (buildEnvIL (x :: l1) env) (buildEnvIL (x :: l2) env) := by
+  cases x with
+  | comment s => simpa [buildEnvIL] using h env
+  | ret t => simpa [buildEnvIL] using h env
+  | decl ty n rhs =>
+    rw [buildEnvIL_decl, buildEnvIL_decl]
+    split
+    · exact h _
+    · exact h _
+
+/-- Moving one item to the left over a block of pure declarations it is independent of. -/
+theorem buildEnvIL_move (ps : List Item) (x : Item) (tail : List Item)
+    (hps : ∀ p ∈ ps, Item.isPureDecl p = true) (hx : ∀ p ∈ ps, x.indepOf p = true) (env : Env) :
+    EnvEq (buildEnvIL (ps ++ x :: tail) env) (buildEnvIL (x :: (ps ++ tail)) env) := by
+  induction ps generalizing env with
+  | nil => exact EnvEq.refl _
+  | cons p ps ih =>
+    have hp := hps p (List.mem_cons_self)
+    have hxp := hx p (List.mem_cons_self)
+    have ih' := fun env => ih (fun q hq => hps q (List.mem_cons_of_mem _ hq))
+      (fun q hq => hx q (List.mem_cons_of_mem _ hq)) env
+    cases p with
+    | comment s => simp [Item.isPureDecl] at hp
+    | ret t => simp [Item.isPureDecl] at hp
+    | decl ty n rhs =>
+      simp only [Item.isPureDecl] at hp
+      have hil := isILTy_of_isPureTy hp
+      -- first use the induction hypothesis behind `p`
+      refine EnvEq.trans (buildEnvIL_cons_congr (Item.decl ty n rhs) ih' env) ?_
+      cases x with
+      | comment s => exact EnvEq.refl _
+      | ret t => exact EnvEq.refl _
+      | decl tyx m rhsx =>
+        by_cases hxil : isILTy tyx = true
+        · simp only [Item.indepOf, hxil, if_true] at hxp
+          exact buildEnvIL_swap [] (ps ++ tail) ty n rhs tyx m rhsx hil hxil hxp env
+        · have hxil' : isILTy tyx = false := by simpa using hxil
+          rw [List.cons_append, buildEnvIL_decl_il hil, buildEnvIL_decl_not hxil', buildEnvIL_decl_not hxil',
+            buildEnvIL_decl_il hil]
+          exact EnvEq.refl _
+
+theorem hoistPures_cons_pure {x : Item} (h : x.isPureDecl = true) (rest : List Item) :
+    hoistPures (x :: rest) = x :: hoistPures rest := by
+  simp [hoistPures, h]
+
+theorem hoistPures_cons_other {x : Item} (h : x.isPureDecl = false) (rest : List Item) :
+    hoistPures (x :: rest) = rest.filter Item.isPureDecl ++ x :: rest.filter (fun i => !i.isPureDecl) := by
+  simp [hoistPures, h]
+
+/-- Hoisting the pure declarations yields a look-up-equal environment. -/
+theorem buildEnvIL_hoist (items : List Item) (h : LayoutIndep items = true) (env : Env) :
+    EnvEq (buildEnvIL (hoistPures items) env) (buildEnvIL items env) := by
+  induction items generalizing env with
+  | nil => exact EnvEq.refl _
+  | cons x rest ih =>
+    simp only [LayoutIndep, Bool.and_eq_true, Bool.or_eq_true] at h
+    obtain ⟨hx, hrest⟩ := h
+    by_cases hp : x.isPureDecl = true
+    · rw [hoistPures_cons_pure hp]
+      exact buildEnvIL_cons_congr x (fun env => ih hrest env) env
+    · have hp' : x.isPureDecl = false := by simpa using hp
+      rw [hoistPures_cons_other hp']
+      have hall : ∀ p ∈ rest.filter Item.isPureDecl, x.indepOf p = true := by
+        rcases hx with hx | hx
+        · exact absurd hx hp
+        · exact fun p hp => List.all_eq_true.1 hx p hp
+      refine EnvEq.trans (buildEnvIL_move _ x _ (fun p hp => (List.mem_filter.1 hp).2) hall env) ?_
+      exact buildEnvIL_cons_congr x (fun env => ih hrest env) env
+
+theorem returned_pures_append (ps l : List Item) (hps : ∀ p ∈ ps, Item.isPureDecl p = true) :
+    returned (ps ++ l) = returned l := by
+  induction ps with
+  | nil => rfl
+  | cons p ps ih =>
+    have hp := hps p (List.mem_cons_self)
+    cases p with
+    | comment s => simp [Item.isPureDecl] at hp
+    | ret t => simp [Item.isPureDecl] at hp
+    | decl ty n rhs =>
+      simp only [List.cons_append, returned]
+      exact ih (fun q hq => hps q (List.mem_cons_of_mem _ hq))
+
+theorem returned_filter_others (items : List Item) :
+    returned (items.filter (fun i => !i.isPureDecl)) = returned items := by
+  induction items with
+  | nil => rfl
+  | cons x rest ih =>
+    by_cases hp : x.isPureDecl = true
+    · rw [List.filter_cons_of_neg (by simp [hp]), ih]
+      cases x with
+      | comment s => simp [Item.isPureDecl] at hp
+      | ret t => simp [Item.isPureDecl] at hp
+      | decl ty n rhs => rfl
+    · rw [List.filter_cons_of_pos (by simpa using hp)]
+      cases x with
+      | comment s => exact ih
+      | ret t => rfl
+      | decl ty n rhs => exact ih
+
+theorem returned_hoistPures (items : List Item) : returned (hoistPures items) = returned items := by
+  rw [hoistPures, returned_pures_append _ _ (fun p hp => (List.mem_filter.1 hp).2), returned_filter_others]
+
+/-! ### A readable sufficient condition -/
+
+/-- A declaration that `buildEnvIL` inlines (pure, bool or effect). -/
+def Item.isILDecl : Item → Bool
+  | .decl ty _ _ => isILTy ty
+  | _ => false
+
+/-- An inlined declaration of the "WRITE" class (effect). -/
+def Item.isEffDecl : Item → Bool
+  | .decl ty _ _ => isILTy ty && !isPureTy ty
+  | _ => false
+
+def Item.name : Item → String
+  | .decl _ n _ => n
+  | _ => ""
+
+def Item.rhs : Item → Term
+  | .decl _ _ r => r
+  | .ret t => t
+  | _ => .num 0
+
+/-- The names of the inlined declarations are pairwise distinct. -/
+def namesDistinct : List Item → Bool
+  | [] => true
+  | x :: rest =>
+    (!x.isILDecl || (rest.filter Item.isILDecl).all (fun d => d.name != x.name)) && namesDistinct rest
+
+/-- No inlined declaration's right-hand side mentions a name that an inlined declaration LATER in the list declares
+    (every mentioned name is declared earlier, or not at all: an operand, a parameter, `bundle`, …). -/
+def noForwardRef : List Item → Bool
+  | [] => true
+  | x :: rest =>
+    (!x.isILDecl || (rest.filter Item.isILDecl).all (fun d => !x.rhs.mentions d.name)) && noForwardRef rest
+
+/-- No pure/bool declaration's right-hand side mentions a name declared by an effect declaration anywhere in the list. -/
+def puresAvoidEffects (items : List Item) : Bool :=
+  (items.filter Item.isPureDecl).all (fun p => (items.filter Item.isEffDecl).all (fun e => !p.rhs.mentions e.name))
+
+/-- The decidable side condition of the layout theorem. -/
+def LayoutWF (items : List Item) : Bool :=
+  namesDistinct items && noForwardRef items && puresAvoidEffects items
+
+theorem Item.isILDecl_of_isPureDecl {p : Item} (h : p.isPureDecl = true) : p.isILDecl = true := by
+  cases p with
+  | comment s => simp [Item.isPureDecl] at h
+  | ret t => simp [Item.isPureDecl] at h
+  | decl ty n rhs => exact isILTy_of_isPureTy h
+
+theorem layoutIndep_of_parts (items : List Item) (hnd : namesDistinct items = true) (hfw : noForwardRef items = true)
+    (hpe : ∀ p ∈ items, p.isPureDecl = true → ∀ e ∈ items, e.isEffDecl = true → p.rhs.mentions e.name = false) :
+    LayoutIndep items = true := by
+  induction items with
+  | nil => rfl
+  | cons x rest ih =>
+    simp only [namesDistinct, Bool.and_eq_true, Bool.or_eq_true, Bool.not_eq_true'] at hnd
+    simp only [noForwardRef, Bool.and_eq_true, Bool.or_eq_true, Bool.not_eq_true'] at hfw
+    have ihr := ih hnd.2 hfw.2 (fun p hp hpp e he hee =>
+      hpe p (List.mem_cons_of_mem _ hp) hpp e (List.mem_cons_of_mem _ he) hee)
+    simp only [LayoutIndep, Bool.and_eq_true, Bool.or_eq_true]
+    refine ⟨?_, ihr⟩
+    by_cases hxp : x.isPureDecl = true
+    · exact Or.inl hxp
+    · refine Or.inr (List.all_eq_true.2 ?_)
+      intro p hp
+      obtain ⟨hpm, hpp⟩ := List.mem_filter.1 hp
+      have hpil := Item.isILDecl_of_isPureDecl hpp
+      cases x with
+      | comment s => rfl
+      | ret t => rfl
+      | decl tyx m rhsx =>
+        cases p with
+        | comment s => rfl
+        | ret t => rfl
+        | decl ty n rhs =>
+          simp only [Item.indepOf]
+          split
+          · rename_i hxil
+            have hxil' : (Item.decl tyx m rhsx).isILDecl = true := hxil
+            have h1 : (rest.filter Item.isILDecl).all (fun d => d.name != (Item.decl tyx m rhsx).name) = true := by
+              rcases hnd.1 with h | h
+              · rw [hxil'] at h; cases h
+              · exact h
+            have h2 : (rest.filter Item.isILDecl).all
+                (fun d => !(Item.decl tyx m rhsx).rhs.mentions d.name) = true := by
+              rcases hfw.1 with h | h
+              · rw [hxil'] at h; cases h
+              · exact h
+            have hmem : Item.decl ty n rhs ∈ rest.filter Item.isILDecl := List.mem_filter.2 ⟨hpm, hpil⟩
+            have a1 := List.all_eq_true.1 h1 _ hmem
+            have a2 := List.all_eq_true.1 h2 _ hmem
+            have hxe : (Item.decl tyx m rhsx).isEffDecl = true := by
+              have : isPureTy tyx = false := by simpa [Item.isPureDecl] using hxp
+              simp [Item.isEffDecl, hxil, this]
+            have a3 := hpe _ (List.mem_cons_of_mem _ hpm) hpp _ List.mem_cons_self hxe
+            simp only [Item.name, Item.rhs] at a1 a2 a3
+            simp only [indep, Bool.and_eq_true, Bool.not_eq_true']
+            simp only [Bool.not_eq_true'] at a2
+            exact ⟨⟨a1, a2⟩, a3⟩
+          · rfl
+
+theorem layoutIndep_of_layoutWF (items : List Item) (h : LayoutWF items = true) : LayoutIndep items = true := by
+  simp only [LayoutWF, Bool.and_eq_true] at h
+  obtain ⟨⟨hnd, hfw⟩, hpe⟩ := h
+  refine layoutIndep_of_parts items hnd hfw ?_
+  intro p hp hpp e he hee
+  have := List.all_eq_true.1 (List.all_eq_true.1 hpe p (List.mem_filter.2 ⟨hp, hpp⟩)) e (List.mem_filter.2 ⟨he, hee⟩)
+  simpa using this
+
 end Rzil
